@@ -274,6 +274,13 @@ def jobs(tier):
     js.append({"for": "C11", "mode": "sheet", "layout": "rot:5", "order": "intra,in,out", "blanks": 1, "rows": 2})
     js.append({"for": "C11", "mode": "sheet", "layout": "base", "order": "in,out,intra", "blanks": 150, "rows": 1})
     js.append({"for": "C11", "mode": "sheet", "layout": "base", "order": "out,intra,in", "blanks": 1000, "rows": 1})
+    # partial fills of one order: two acquisitions paying a crypto fee, sharing their unique id (or having none) and free to share
+    # their instant - each has its own artificial fee transaction
+    for fills in ("same-id", "no-id"):
+        js.append({"for": "C11", "mode": "sheet", "layout": "base", "order": "in,out,intra", "blanks": 0, "rows": 1, "fills": fills})
+    # an acquisition paying a crypto fee is split whatever its type (taxable income types too)
+    for in_type in ("STAKING", "GIFT") if tier == "quick" else ():
+        js.append({"for": "C11", "mode": "row", "table": "in", "layout": "base", "pat": ("few", 1), "order": "in,out,intra", "blanks": 0, "in_type": in_type})
     if tier == "thorough":
         for order in permutations(TABLES):
             js.append({"for": "C11", "mode": "sheet", "layout": "rot:1", "order": ",".join(order), "blanks": 1, "rows": 2})
@@ -329,7 +336,7 @@ def describe(spec):
     if m == "row":
         return "C11 row %s layout=%s pat=%s%d%s" % (spec["table"], spec["layout"], spec["pat"][0], spec["pat"][1], " type=" + spec["in_type"] if spec.get("in_type") else "")
     if m == "sheet":
-        return "C11 sheet order=%s blanks=%d rows=%d layout=%s" % (spec["order"], spec["blanks"], spec["rows"], spec["layout"])
+        return "C11 sheet order=%s blanks=%d rows=%d layout=%s%s" % (spec["order"], spec["blanks"], spec["rows"], spec["layout"], " fills=" + spec["fills"] if spec.get("fills") else "")
     if m == "structure":
         return "C12 structure n=%d%s" % (spec["n"], " after [%s]" % ",".join(spec["prefix"]) if spec.get("prefix") else "")
     return "C12 %s %s.%s %s layout=%s" % (m, spec["table"], spec["field"], spec["fault"], spec["layout"])
@@ -405,8 +412,15 @@ def check_tx(S, prop, tx, rv, lay, rowno, inp):
         S.expect(tx.crypto_fee == ZERO, prop, "in-crypto-fee", "an in-transaction kept a crypto fee")
         arts = [o for o in inp.unfiltered_out_transaction_set if o.row < 0 and o.unique_id == tx.unique_id and o.timestamp == tx.timestamp]
         if has("crypto_fee"):
-            S.expect(len(arts) == 1, prop, "artificial-fee", "%d artificial fee-only out-transactions for the crypto fee of row %d" % (len(arts), rowno))
-            art = arts[0]
+            # rows sharing instant and id (partial fills) each have their own artificial transaction: every one is claimed by
+            # one row only (the total number of artificial transactions is checked by the caller)
+            claimed = inp.__dict__.setdefault("_vf_claimed", set())
+            free = [o for o in arts if o.row not in claimed]
+            S.expect(len(free) >= 1, prop, "artificial-fee", "no artificial fee-only out-transaction (of its own) for the crypto fee of row %d" % rowno)
+            d = [S.ex(o.crypto_fee) - S.cell_exact(rv.cell(S, "crypto_fee")) for o in free]
+            best = [o for o, x in zip(free, d) if not x * 2 > S.ex_int(1, 11) and not x * 2 < S.ex_int(-1, 11)]
+            art = (best or free)[0]
+            claimed.add(art.row)
             S.expect((art.exchange, art.holder, art.transaction_type.name, art.asset) == (tx.exchange, tx.holder, "FEE", "B1"), prop, "artificial-fee-fields")
             _near(S, prop, "crypto_fee", art.crypto_fee, rv.cell(S, "crypto_fee"))
             S.expect(art.crypto_out_no_fee == ZERO, prop, "artificial-fee-amount")
@@ -514,6 +528,10 @@ def run_c11(S, spec):
         rowsets = {}
         for x in TABLES:
             rowsets[x] = [RowVars(S, x, FEW[x][(i + 1) % len(FEW[x])], "%s%d" % (x[:2], i)) for i in range(spec["rows"])]
+        if spec.get("fills"):
+            rowsets["in"] = [RowVars(S, "in", {"fee": "crypto", "nofee": 0, "withfee": 0, "txt": 1}, "f%d" % i) for i in range(2)]
+            for rv in rowsets["in"]:
+                rv.txt["unique_id"] = "order-7" if spec["fills"] == "same-id" else None
     width = _width(layouts)
     cfg = _cfg(write_ini(layouts))
     rows, where = _build_sheet(S, layouts, order, spec["blanks"], rowsets, width)
